@@ -13,18 +13,22 @@ def g_str(name, *args):
     """uninterpreted string-valued function of the (scalar) arguments"""
     from pyvc.values import lift, SOpt
     terms = []
+
+    def as_int(t):
+        return z3.If(t, z3.IntVal(1), z3.IntVal(0)) if z3.is_bool(t) else t
     for a in args:
+        # representation-independent encoding of a possibly-None scalar: (is-None flag, payload or 0 / "")
         if a is None:
-            terms.append(z3.IntVal(-12345))
-        elif isinstance(a, bool):
-            terms.append(z3.IntVal(1 if a else 0))
+            terms += [z3.IntVal(1), z3.IntVal(0)]
         elif isinstance(a, SOpt):
-            terms.append(z3.If(a.n, z3.IntVal(1), z3.IntVal(0)))
-            t = a.v.t
-            terms.append(z3.If(t, z3.IntVal(1), z3.IntVal(0)) if z3.is_bool(t) else t)
-        elif isinstance(a, (SV, int, str)):
-            t = lift(a)
-            terms.append(z3.If(t, z3.IntVal(1), z3.IntVal(0)) if z3.is_bool(t) else t)
+            pay = as_int(a.v.t)
+            zero = z3.StringVal('') if pay.sort() == z3.StringSort() else z3.IntVal(0)
+            if pay.sort() == z3.StringSort():
+                terms += [z3.If(a.n, z3.IntVal(1), z3.IntVal(0)), z3.If(a.n, zero, pay)]
+            else:
+                terms += [z3.If(a.n, z3.IntVal(1), z3.IntVal(0)), z3.If(a.n, zero, pay)]
+        elif isinstance(a, (SV, int, str, bool)):
+            terms += [z3.IntVal(0), as_int(lift(a))]
         else:
             terms.append(z3.IntVal(id(a) % 1000003))
     f = z3.Function(name, *[t.sort() for t in terms], z3.StringSort())
